@@ -67,7 +67,7 @@ def state_value(rng, key, state):
     if state == "padded":
         return rng.choice([" ", "\n", "  \n"]) + d + rng.choice([" ", "\n", ""])
     if key == "WARPS":
-        return "4.000=1.000"
+        return rng.choice(["4.000=1.000", "4.000=1.000", "16.000=0.000", "8.000=0.000,\n24.000=0.000", "0.000=0.500,4.000=2.000"])
     if key == "VERSION":
         return rng.choice(["0.83", "0.7"])
     return rng.choice(["0.000=2", "custom value", "8.000=1.000", "x.png"])
